@@ -57,6 +57,8 @@ pub struct Registry {
     pub zst_clones: u64,
     pub zst_drops: u64,
     pub zst_underflow: u64,
+    /// number of `Tok::clone` calls
+    pub tok_clones: u64,
     /// fault injection: (site, remaining ticks before the panic)
     armed: Option<(Site, u64)>,
     /// ticks seen per site since last reset (used to enumerate injection points)
@@ -172,6 +174,29 @@ macro_rules! int_comp {
 int_comp!(Word, u32);
 int_comp!(Byte, u8);
 int_comp!(Quad, u64);
+
+/// No drop glue, but an observable `Clone`: a clone that is skipped (e.g. replaced by a bitwise
+/// copy) shows up as a missing tick of `tok_clones`.
+#[derive(Debug, PartialEq)]
+pub struct Tok(pub u64);
+impl Stamp for Tok {
+    const MASK: u64 = u64::MAX;
+    fn mk(v: u64) -> Self {
+        Tok(v)
+    }
+    fn get(&self) -> u64 {
+        self.0
+    }
+    fn set(&mut self, v: u64) {
+        self.0 = v;
+    }
+}
+impl Clone for Tok {
+    fn clone(&self) -> Self {
+        reg(|r| r.tok_clones += 1);
+        Tok(self.0)
+    }
+}
 
 /// A component type that no archetype of any world under test holds (second member of the
 /// `OneOf<C, Nope>` parameters used by the borrow matrix).
